@@ -38,7 +38,10 @@ pub trait WriteBatch {
     fn consume_serialization_buffer(&mut self, buffer: Self::SerializationBuffer)
         requires old(self).est() + Self::cost(&buffer) + 1 < usize::MAX;
     fn should_write_more(&self) -> bool;
+    fn commit(self);
 }
+/// event: the backend was handed this operation sequence as ONE write (its atomic application and durability: trusted backend)
+pub uninterp spec fn written(ops: Seq<BOp>) -> bool;
 pub trait SerializationBuffer {
     fn put<W: WideColumn, C: WideColumnValue<W>>(&mut self, key: &W::Key, value: &C)
         requires wide_key::<W, C>(key).len() + 1 < usize::MAX, value.bytes().len() + 1 < usize::MAX;
